@@ -163,4 +163,44 @@ def run(ctx):
                 okm = 'dest' in d and 'block_begin' in d and 'src' in s_ and 'block_begin' in s_ and n.replace(' ', '') in ('(block_end-block_begin)',)
     ctx.check(okm, 'R3', 'memcpy_private: memcpy(dest + begin, src + begin, end - begin)', where(mp), '', key='R3|memcpy_private|offsets')
     ctx.assume('which bytes end up copied for a given layout (the arithmetic of the private block table built by smpi_shared_malloc_partial) is not decided')
+    # ---- R4 the out-parameter of smpi_is_shared is written on every successful path -------------------------------------------------------------
+    ctx.rule('R4', 'smpi_is_shared stores the offset of the pointer in its allocation (*offset) on every path that reports "shared"; the callback frames each side with the offset of that side', 2)
+    from ..cfg import abstract_run as _arun
+    isf = P.fn('smpi_is_shared')
+    offp = None
+    for i_, p_ in enumerate(isf['params']):
+        if p_['n'] == 'offset' or (isf.tstr(p_['t']).endswith('*') and 'size_t' in isf.tstr(p_['t']) or 'unsigned long *' == isf.tstr(p_['t'])):
+            offp = lib.parm_i(isf, i_)
+    if offp is None:
+        ctx.unrecognised('R4', 'smpi_is_shared: offset out-parameter not found')
+    else:
+        def tr4(st, e):
+            if e.kind == 'assign' and e.lhs == ('un', '*', offp):
+                return ('set', st[1])
+            if e.kind == 'return' and e.val is not None:
+                val = e.val
+                while val[0] in ('cast', 'conv'):
+                    val = val[2]
+                truth = (val[0] == 'int' and val[1] != 0) or val == ('bool', True)
+                if truth and st[0] != 'set':
+                    return (st[0], st[1] or e.line)
+            return None
+        ex4 = _arun(A, isf, ('unset', None), tr4)
+        bad4 = sorted(set(x[1] for x in ex4['normal'] if x[1]))
+        ctx.check(bool(ex4['normal']) and not bad4, 'R4', 'smpi_is_shared: *offset is written before every `return 1`', where(isf, bad4[0] if bad4 else None),
+                  'the return at line %s reports a shared buffer without storing its offset: the caller frames the private blocks with whatever the variable held (e.g. the offset of the other side)' % bad4[0] if bad4 else '',
+                  key='R4|smpi_is_shared|offset out-parameter')
+    cb = P.fn('smpi_comm_copy_buffer_callback')
+    vcb = A.view(cb)
+    calls = [e for eid in range(len(cb['elems'])) for e in vcb.events_of(eid) if e.eid == eid and e.kind == 'call' and e.q == 'smpi_is_shared' and len(e.args) == 3]
+    frames = [e for eid in range(len(cb['elems'])) for e in vcb.events_of(eid) if e.eid == eid and e.kind == 'call' and e.q.endswith('shift_and_frame_private_blocks') and len(e.args) >= 2]
+    okpair = len(calls) == 2 and len(frames) == 2
+    detail = ''
+    if okpair:
+        for c_, f_ in zip(sorted(calls, key=lambda e: e.line), sorted(frames, key=lambda e: e.line)):
+            ov = c_.args[2][2] if c_.args[2][0] == 'un' and c_.args[2][1] == '&' else None
+            if ov is None or f_.args[1] != ov or f_.args[0] != c_.args[1]:
+                okpair = False
+                detail = 'line %s frames %s with %s, but smpi_is_shared (line %s) filled %s / %s' % (f_.line, ex.pretty(f_.args[0]), ex.pretty(f_.args[1]), c_.line, ex.pretty(c_.args[1]), ex.pretty(c_.args[2]))
+    ctx.check(okpair, 'R4', 'copy callback: each side is framed with the block list and the offset smpi_is_shared filled for that side', where(cb), detail, key='R4|smpi_comm_copy_buffer_callback|offset of its side')
     return EXPLANATION
